@@ -132,11 +132,19 @@ def run_order_script(world, script: dict, x: int, prog: dict, specs: dict, timeo
                             see("D", L._ident(ab, x))
                         see("S")
                         st["ended"] = True
-                    elif op == "c":
-                        sess.close()
-                    elif op == "x":
-                        sess.cancel()
-                        st["ended"] = True
+                    elif op in ("c", "w", "x"):
+                        if op == "c":
+                            sess.close()
+                        elif op == "w":
+                            sess.__exit__(None, None, None)          # leaving the `with` block
+                        else:
+                            sess.cancel()
+                            st["ended"] = True
+                        # "Q": the exit returned and (by construction of the transport) read the output to its end:
+                        # always on a socket transport; over HTTP only an exchange session that is closed (every
+                        # response was read completely; a producer may abandon a half-read response, cancel reads nothing)
+                        if not http or (kind == "exch" and op != "x"):
+                            see("Q")
                 except StopIteration:
                     see("S")
                     st["ended"] = True
@@ -174,8 +182,10 @@ def run_content_case(world, case: dict, x: int) -> dict:
     script, place = content_case_script(case)
     text = TEXTS[case["txt"]]
     spec = log_spec(1, case["lvl"], text, EXTRAS[case["extra"]])
-    step1 = {"pre": [spec] if place["slot"] == "pre" else [], "act": "emit", "post": [spec] if place["slot"] == "post" else [],
-             "rows": 1, "md": False}
+    tail = place["slot"] == "tail"
+    step1 = {"pre": [spec] if place["slot"] == "pre" else [], "act": "emit",
+             "post": [spec] if place["slot"] in ("post", "tail") else [], "md": False,
+             "rows": 20000 if case.get("route") == "shm" else 1}          # 160 kB >= SHM_MIN_BATCH_BYTES: through the segment
     prog = {"init_logs": [spec] if place["slot"] == "init" else [], "init_raise": False,
             "steps": [] if script["kind"] == "unary" else [step1, {"pre": [], "act": "emit" if script["kind"] == "exch" else "fin", "post": []}],
             "past": "fin" if script["kind"] == "prod" else "emit", "in_rows": 1}
@@ -196,7 +206,22 @@ def run_content_case(world, case: dict, x: int) -> dict:
                 events.append(("P", r == x))
                 return
             sess = r
-            if script["kind"] == "prod":
+            if tail:
+                # one turn, then leave: the message sits behind the batch and is met only by the exit
+                if script["kind"] == "exch":
+                    ab = sess.exchange(AnnotatedBatch(batch=L.input_batch(x, 1, "exact", {"in_rows": 1})))
+                elif world.name == "http":
+                    ab = next(iter(sess))
+                else:
+                    ab = sess.tick()
+                events.append(("P", L._ident(ab, x) == 1))
+                if case["exit"] == "close":
+                    sess.close()
+                elif case["exit"] == "with":
+                    sess.__exit__(None, None, None)
+                else:
+                    sess.cancel()
+            elif script["kind"] == "prod":
                 for ab in sess:
                     events.append(("P", L._ident(ab, x) >= 1))
             else:
@@ -288,6 +313,8 @@ def peer_response(case: dict, v: dict, x: int) -> bytes:
         return VW.ipc_stream(RESULT, [(_empty(RESULT), md), (pa.RecordBatch.from_pydict({"result": [x]}, schema=RESULT), None)])
     data = (pa.RecordBatch.from_pydict({"v": [x * 1000 + 1]}, schema=W.OUT), None)
     if where == "stream":
+        if case.get("pos") == "after":      # the log batch follows the data batch: met only when the caller leaves
+            return VW.ipc_stream(W.OUT, [data, (_empty(W.OUT), md)])
         return VW.ipc_stream(W.OUT, [(_empty(W.OUT), md), data])
     if where == "header":
         hb = W.Hdr(n=x)._serialize()
@@ -344,11 +371,14 @@ def run_peer_case(case: dict, v: dict, x: int, real_pipe: bool = False) -> dict:
             if case["where"] == "header":
                 if r.header != W.Hdr(n=x):
                     return
-            if case["tr"] == "http":
-                abs_ = list(r)
-            else:
-                abs_ = [r.tick()]
+            abs_ = list(r) if case["tr"] == "http" else [r.tick()]
+            how = case.get("exit", "close")
+            if how == "close":
                 r.close()
+            elif how == "with":
+                r.__exit__(None, None, None)
+            else:
+                r.cancel()
             payload["ok"] = len(abs_) == 1 and abs_[0].batch.column("v").to_pylist() == [x * 1000 + 1]
 
     def body_fn():
